@@ -735,7 +735,7 @@ impl Property for C05 {
     fn phases(&self, tier: Tier) -> Vec<Phase<C05Case>> {
         vec![
             Phase::Enumerate { name: "assets", total: 6, exhaustive: false, gen: Arc::new(|i| Some(C05Case::Asset(i as u8))) },
-            Phase::Random { name: "typed-headers", cases: tier.pick(30_000, 600_000), strat: Arc::new(model_strategy) },
+            Phase::Random { name: "typed-headers", cases: tier.pick(30_000, 2_000_000), strat: Arc::new(model_strategy) },
         ]
     }
     fn check(&self, case: &C05Case) -> Outcome {
